@@ -1116,6 +1116,11 @@ func (r *c04Runner) refreshProbe(rc *c04Refresh) {
 	}
 	ref := c04Reference(t, cfg, false)
 	ro := c04RefreshObs{Probe: obs, Emitted: len(emitted), A: rc.identA}
+	if obs.Panic != "" {
+		run.Eval(r.cell(cfg, "refresh", rc.s, ref))
+		run.Violation("c04:panic:refresh", fmt.Sprintf("panic while handling a refreshed token (%s, %s): %s", cfg.Name, rc.s, vfTrunc(obs.Panic, 200)), r.detail(cfg, "refresh", rc.s, "", t, ref, ro, ""))
+		return
+	}
 	isA := func(user, email, groups, pu string) bool {
 		return user == rc.identA.Sub && email == rc.identA.Email && groups == strings.Join(rc.identA.Groups, ",") && pu == rc.identA.PU
 	}
